@@ -10,7 +10,7 @@ const { enumerate, addStats } = require('../lib/explore')
 // might be mistaken for something inert: array / object / template literal, conditional, new, unary, key
 const ATOMS_Q = ["'lit'", '7', 'a', 'f()', 'o.p', 'o[k]', 'i++', '(a = E.a2)', 'g(1)', '1 + 2', 'a - 1', '2 * 3',
   '[f()]', '({p: f()})', '`${f()}`', '(c ? f() : b)', 'new X(f())', '-f()', 'o[f()]']
-const ATOMS_T = ATOMS_Q.concat(['this.q', '(c ? a : b)', '(a, b)', '[a, b]', '`t`', 'null', 'undefined', 'function(){return a}', '() => a', 'new X(a)', '-a', 'typeof a', 'o?.p', 's?.trim()', 'a * 2', "'l' + 'm'", '1 << 2', 'a || b', 'o.q.p', 'h(f(), a)'])
+const ATOMS_T = ATOMS_Q.concat(['this.q', '(c ? a : b)', '(a, b)', '[a, b]', '`t`', 'null', 'undefined', 'function(){return a}', '() => a', 'new X(a)', '-a', 'typeof a', 'o?.p', 's?.trim()', 'a * 2', "'l' + 'm'", '1 << 2', 'a || b', 'o.q.p', 'h(f(), a)', "'l' + undefined"])
 
 // ---- G2 operation schemas ------------------------------------------------------------------------
 // kind: used by drivers to pick representative subsets. slots: which holes exist.
